@@ -156,6 +156,8 @@ def diff_op(mo, im):
     d = []
     if "err" in mo or "err" in im:
         me, ie = mo.get("err"), im.get("err")
+        if me == "no-trace" and ie == "no-trace":
+            return d
         if me != ie:
             d.append(f"error: model={me} impl={ie} {im.get('msg', '')[:120]}")
         return d
@@ -235,7 +237,9 @@ def make_case(g: G, depth, opts):
             ops.append(["assessSelf"])
         elif k == "assess":
             c_full = g.constraint(universe, coverage=1.0, bogus=0.0)
-            if opts.get("assess_partial") and not has_node(prog, SWITCHY) and r.random() < opts["assess_partial"]:
+            if (opts.get("assess_partial") and r.random() < opts["assess_partial"]
+                    and not has_node(prog, SWITCHY + ("vmap", "scan", "repeat", "accumulate", "reduce", "iterate",
+                                                      "iterate_final", "masked_iterate", "masked_iterate_final", "mask"))):
                 # a partial sample: both sides must raise MissingAddress (or accept it if nothing is missing)
                 ops.append(["assess", g.constraint(universe, coverage=r.choice([0.0, 0.5, 0.8]), bogus=0.0), cur_args])
             elif len(c_full) == len(universe):
@@ -481,10 +485,13 @@ def signature(case, f):
     prog = case["prog"]
     if _has_zero_length(case):
         sig["zero_length"] = True
+    if has_node(prog, SWITCHY) and any(o[0] in ("upd", "bwd") and o[-2] is True for o in case["ops"]):
+        sig["switch_index_change"] = True
     if f["prop"] == "C06":
         sig = {"prop": "C06"}
         if has_node(prog, SWITCHY):
-            sig["feature"] = "switch_backward_request"
+            idx_changed = any(o[0] in ("upd", "bwd") and o[-2] is True for o in case["ops"])
+            sig["feature"] = "switch_index_change" if idx_changed else "switch_backward_request"
         elif has_node(prog, ("mask", "masked_iterate", "masked_iterate_final")):
             sig["feature"] = "mask_flag_drop_with_constraint"
         return sig
@@ -557,7 +564,7 @@ def standard_run(ctx: Ctx, props, focus=None, opts=None, n_quick=48, n_thorough=
                 "non-trivial = at least one op beyond simulate; distinct by (program, history) text")
     corpus = load_corpus(prop_id) if prop_id else []
     for e in common.load_known(prop_id or ""):
-        if "case" in e.get("replay", {}):
+        if e.get("property") == prop_id and "case" in e.get("replay", {}):
             corpus.append(e["replay"]["case"])
     pending = [dict(c, _label="corpus") for c in corpus]
     g = G(ctx.rng, focus=focus, zero_len=zero_len)
